@@ -6,6 +6,7 @@ CONSTANTS
   ManualKs = FALSE
   ManualDb = FALSE
   PersistShortcut = FALSE
+  SyncBatchSyncs = TRUE
   MaxFaults = 400
   EnPersistCall = TRUE
   FixPoisonAppend = TRUE
